@@ -345,9 +345,11 @@ class Program(object):
         self.classes_by_name.setdefault(node.name, []).append(ci)
         for st in node.body:
             if isinstance(st, (ast.FunctionDef, ast.AsyncFunctionDef)):
-                fi = FunctionInfo(st.name, "%s.%s" % (node.name, st.name), m, ci, st)
+                # private names are mangled by the compiler: the attribute is _Class__name
+                mname = mangle(node.name, st.name)
+                fi = FunctionInfo(mname, "%s.%s" % (node.name, st.name), m, ci, st)
                 fi.owner = ci
-                ci.methods[st.name] = fi
+                ci.methods[mname] = fi
                 self._register_fn(fi)
             elif isinstance(st, ast.Assign):
                 for t in st.targets:
